@@ -73,6 +73,10 @@ def real_run(job):
                     p.fast_forward()
                 elif m == 3:
                     lines = p.collect(nexts=job["k"])
+                elif m == 5:      # collect(nexts=k, lines=sink) into a list that already holds two rows: k more lines are appended
+                    sink = [["pre", "0"], ["pre", "1"]]
+                    got = p.collect(nexts=job["k"], lines=sink)
+                    lines = list(got)[2:] if list(got)[:2] == [["pre", "0"], ["pre", "1"]] else [["SINK-LOST"]] + list(got)
                 else:  # 4: take k lines from next() and abandon the generator
                     lines = []
                     g = p.next()
